@@ -16,7 +16,7 @@ pub fn run(args: &Args, r: &mut Report) {
         committed per-app records.  Shape key = paths + response letters + ping outcomes + preset mask.  Non-trivial = some response \
         carries a cohort field or a day number."
         .into();
-    r.require(&["c09-apps-policy-next", "c09-apps-policy-allowed", "c09-wire-cohort-and-ping", "c09-committed-at-quiescence"]);
+    r.require(&["c09-apps-policy-next", "c09-apps-policy-allowed", "c09-wire-cohort-and-ping", "c09-committed-at-quiescence", "c09-apps-committed-with-result"]);
     r.assume("duplicate app ids inside one response are not generated (don't-care)");
     let n = args.budget(20_000, 200_000);
     for i in 0..n {
@@ -64,6 +64,7 @@ pub fn run(args: &Args, r: &mut Report) {
         r.interleavings.insert(run.sig);
         let mut m = Mon::default();
         mon_state(&run.flow, &case.setup, Proj::Cohort, &mut m);
+        mon_c09_together(&run.flow, &mut m);
         if let Some(p) = &run.panicked {
             report_panic(r, args, i, p, &run.w, case_desc(&case));
         }
